@@ -90,6 +90,7 @@ func main() {
 	specDir := flag.String("spec", "/verif/spec", "directory with *.spec prelude files")
 	genSpec := flag.String("genspec", "", "comma separated spec files with generated contracts for repo functions (verified, not assumed)")
 	out := flag.String("out", "", "output JSON file")
+	flag.BoolVar(&devirtualize, "devirt", false, "interface calls on a receiver of statically known concrete repository type go to that type's method")
 	only := flag.String("funcs", "", "regexp restricting the functions verified")
 	timeout := flag.Int("timeout", 5, "per-obligation solver timeout (s)")
 	dump := flag.String("dump", "", "directory to dump SMT scripts into")
